@@ -17,13 +17,18 @@ RULE = (
     "outcome {accept after d ms (fast < 1 s, slow <= 9.5 s), refused after d ms, hang (10 s connect timeout), accept "
     "then the PeerInit write fails, server reports no address} x indirect outcome {peer pierces i ms after the relay "
     "(fast < 1 s, slow <= 59 s), server relays CannotConnect after i ms, silence (60 s timeout), the ConnectToPeer "
-    "write to the server fails} x peer ports {clear, obfuscated, both} x network.peer.obfuscate x address looked up "
+    "write to the server fails, peer pierces AND server relays CannotConnect for the same ticket (either order, and "
+    "in the same instant swept over 0..8 loop-iteration offsets on either delivery)} x optionally a first message "
+    "glued to the pierce message in one TCP segment x peer ports {clear, obfuscated, both} x network.peer.obfuscate "
+    "x address looked up "
     "/ passed by the caller x connection type P/D/F x pierce to our clear/obfuscated port x optional cancellation of "
     "the request task at c ms. The outcome table is enumerated in full (every cell with all its d<i, i<d timing "
     "representatives and all five port / preference configurations), every alignable cell also with both outcomes in the *same "
     "virtual instant* swept over sub-instant offsets (0..10 extra loop iterations on either side), and every cell "
     "with cancellation at, between and after each modelled event (lookup reply, direct outcome, relay, indirect "
-    "outcome, completion; ties swept over iteration offsets and over listeners that yield); Hypothesis adds cases "
+    "outcome, completion; ties swept over iteration offsets and over listeners that yield, incl. the cancellation "
+    "firing 0..3 iterations before / after the winner's result is reported, i.e. also while the race tears the loser "
+    "down); Hypothesis adds cases "
     "with drawn timings. Role 'reverse' = a ConnectToPeer.Response from the server on behalf of a peer whose "
     "address accepts / refuses / hangs / fails the PeerPierceFirewall write / has no port, x ports x preference x "
     "type, after a history of 0..2 earlier connections with that same peer (every sequence enumerated: opened by our "
@@ -58,8 +63,9 @@ ASSUMPTIONS = [
     "number of loop iterations",
     "PEER_CONNECT_TIMEOUT = 10 s and PEER_INDIRECT_CONNECT_TIMEOUT = 60 s are pinned in the model (slow successes "
     "are generated up to 9.5 s / 59 s)",
-    "one request per case; the scripted peer gives exactly one indirect outcome (pierce xor CannotConnect xor "
-    "silence)",
+    "one request per case; the scripted peer gives one indirect outcome (pierce, CannotConnect, silence) or, kind "
+    "'both', a pierce and a CannotConnect relay for the same ticket: the earlier one decides the indirect attempt, "
+    "within 5 ms either resolution is accepted but nothing may be left behind",
     "when the ConnectToPeer write to the server fails in race mode the caller passes ip/port (the failed write "
     "closes the server connection; a direct attempt still waiting for GetPeerAddress on a dead server connection "
     "has no timeout of its own and is outside the quantifier)",
@@ -80,7 +86,7 @@ HARD_LIMIT_S = 200.0
 MAX_HOPS = 16
 
 DIRECT = ['accept', 'refuse', 'hang', 'initfail', 'noaddr']
-INDIRECT = ['pierce', 'cannot', 'silent', 'sendfail']
+INDIRECT = ['pierce', 'cannot', 'silent', 'sendfail', 'both']
 REV_DIRECT = ['accept', 'refuse', 'hang', 'initfail']
 PORTS = ['clear', 'obf', 'both']
 REV_PORTS = ['clear', 'obf', 'both', 'none']
@@ -140,7 +146,10 @@ def _sanitise(case):
     c['ports'] = _pick(case.get('ports'), PORTS, 'clear')
     c['direct'] = {'kind': _pick(d.get('kind'), DIRECT, 'accept'), 'ms': _int(d.get('ms', 2), 1, 9500, 2)}
     c['indirect'] = {'kind': _pick(i.get('kind'), INDIRECT, 'pierce'), 'ms': _int(i.get('ms', 2), 1, 59000, 2),
-                     'obf': bool(i.get('obf'))}
+                     'obf': bool(i.get('obf')),
+                     # kind 'both': the peer pierces after ms AND the server relays CannotConnect after cc_ms
+                     'cc_ms': _int(i.get('cc_ms', 2), 1, 59000, 2), 'glue': bool(i.get('glue'))}
+    c['cc_hops'] = _int(case.get('cc_hops', 0), 0, MAX_HOPS, 0)
     c['i_hops'] = _int(case.get('i_hops', 0), 0, MAX_HOPS, 0)
     c['c_hops'] = _int(case.get('c_hops', 0), 0, MAX_HOPS, 0)
     cancel = case.get('cancel_ms')
@@ -172,7 +181,9 @@ def _expected_port(ports, prefer_obf):
 # ---------------------------------------------------------------------------
 # outcome table (reference model, times in ms relative to the start of the request)
 
-def _model(c):
+def _model_variant(c, pierce_wins):
+    """Outcome table for one resolution of an ambiguous indirect outcome (kind 'both' with pierce and CannotConnect
+    in the same instant: ``pierce_wins`` says which of the two the attempt acts upon)."""
     look = 2.0 if c['addr'] == 'lookup' else 0.0
     dk, ik = c['direct']['kind'], c['indirect']['kind']
     d_ms, i_ms = float(c['direct']['ms']), float(c['indirect']['ms'])
@@ -183,8 +194,13 @@ def _model(c):
         t_d = look + CONNECT_TIMEOUT_MS
     else:
         t_d = 2.0
-    rel = {'pierce': 2.0 + i_ms, 'cannot': 2.0 + i_ms, 'silent': INDIRECT_TIMEOUT_MS, 'sendfail': 0.0}[ik]
-    i_ok = ik == 'pierce'
+    if ik == 'both':
+        # the attempt ends with whichever of the two arrives first
+        rel = 2.0 + min(i_ms, float(c['indirect']['cc_ms']))
+        i_ok = pierce_wins
+    else:
+        rel = {'pierce': 2.0 + i_ms, 'cannot': 2.0 + i_ms, 'silent': INDIRECT_TIMEOUT_MS, 'sendfail': 0.0}[ik]
+        i_ok = ik == 'pierce'
     race = c['mode'] == 'race'
     s_i = 0.0 if race else (None if d_ok else t_d)
     t_i = None if s_i is None else s_i + rel
@@ -218,8 +234,40 @@ def _model(c):
         order = 'indirect-not-started'
     else:
         order = 'same-instant' if abs(t_d - t_i) <= EPS_MS else ('direct-first' if t_d < t_i else 'indirect-first')
+    # instants (ms) at which the environment does something for this request
+    events = [t_d]
+    if s_i is not None:
+        if ik == 'both':
+            events += [s_i + 2.0 + i_ms, s_i + 2.0 + float(c['indirect']['cc_ms'])]
+        else:
+            events.append(t_i)
     return {'t_d': t_d, 't_i': t_i, 's_i': s_i, 't_ret': t_ret, 'allowed': allowed, 'd_ok': d_ok, 'i_ok': i_ok,
-            'works': works, 'cancel_class': cancel_class, 'order': order, 'look': look}
+            'works': works, 'cancel_class': cancel_class, 'order': order, 'look': look, 'events': events,
+            't_exp': {tag: t_ret for tag in allowed if tag != 'cancelled'}, 'ambiguous': False}
+
+
+def _model(c):
+    """Reference outcome. For kind 'both' the indirect attempt succeeds when the pierce arrives before the
+    CannotConnect and fails when it arrives after it; in the same instant (within EPS_MS) both resolutions are
+    accepted (union of the allowed outcomes) -- what must hold in either case is that nothing is left behind."""
+    ind = c['indirect']
+    if ind['kind'] != 'both':
+        return _model_variant(c, True)
+    diff = float(ind['ms']) - float(ind['cc_ms'])
+    if diff < -EPS_MS:
+        return _model_variant(c, True)
+    if diff > EPS_MS:
+        return _model_variant(c, False)
+    a, b = _model_variant(c, True), _model_variant(c, False)
+    merged = dict(a)
+    merged['allowed'] = set(a['allowed']) | set(b['allowed'])
+    merged['t_exp'] = {tag: max(a['t_exp'].get(tag, 0.0), b['t_exp'].get(tag, 0.0))
+                       for tag in set(a['t_exp']) | set(b['t_exp'])}
+    merged['works'] = sorted(set(a['works']) | set(b['works']))
+    merged['ambiguous'] = True
+    if a['cancel_class'] != b['cancel_class']:
+        merged['cancel_class'] = 'tie-with-completion'
+    return merged
 
 
 # ---------------------------------------------------------------------------
@@ -261,23 +309,44 @@ def _make_peer_class():
                 ep.link.sides[0].fail_writes = ConnectionResetError('sim: write failed')
             return link
 
+        cc_delay = 0.002        # indirect == 'both': delay of the CannotConnect relay (the pierce uses indirect_delay)
+        glue = False            # a first message follows the pierce message in the same TCP segment (P / D)
+        glued = None
+
         def on_connect_to_peer(self, server, session_idx, sender, msg):
             self.connect_to_peer_requests.append((self.loop.time(), msg))
-            if self.indirect == 'pierce':
+            if self.indirect in ('pierce', 'both'):
                 self.loop.call_later(max(simnet.MIN_LATENCY, self.indirect_delay), self._pierce, msg)
-            elif self.indirect == 'cannot':
+            if self.indirect in ('cannot', 'both'):
+                delay = self.cc_delay if self.indirect == 'both' else self.indirect_delay
                 server.send(simworld.M().CannotConnect.Response(msg.ticket), session_idx,
-                            delay=max(simnet.MIN_LATENCY, self.indirect_delay))
+                            delay=max(simnet.MIN_LATENCY, delay))
 
         def _pierce(self, msg):
             port = MY_PORTS[1 if self.pierce_obf else 0]
             if not self.net.can_connect_in(port):
                 return
-            link = self.connect(typ=msg.typ, ticket=msg.ticket, init='pierce', port=port, obfuscated=self.pierce_obf)
+            if self.glue and msg.typ in ('P', 'D'):
+                link = self.connect(typ=msg.typ, ticket=msg.ticket, init='none', port=port, obfuscated=self.pierce_obf)
+                _delay_deliveries(self.loop, link.ep.link.sides[1], self.i_hops)
+                sent = []
+                plain_send = link.ep.send
+                link.ep.send = lambda data, delay=0.0: sent.append(bytes(data))
+                link.send_msg(simworld.M().PeerPierceFirewall.Request(msg.ticket))
+                link.init = 'sent-pierce'
+                if msg.typ != 'P':
+                    link.obfuscated = False
+                self.glued = _probe_messages(msg.typ)[3]
+                link.send_msg(self.glued)
+                link.ep.send = plain_send
+                link.ep.send(b''.join(sent))        # one segment: init message + first message
+            else:
+                link = self.connect(typ=msg.typ, ticket=msg.ticket, init='pierce', port=port,
+                                    obfuscated=self.pierce_obf)
+                _delay_deliveries(self.loop, link.ep.link.sides[1], self.i_hops)
             link.typ = msg.typ
             link.via_obf = self.pierce_obf
             link.ep.on_eof = lambda e: e.close()
-            _delay_deliveries(self.loop, link.ep.link.sides[1], self.i_hops)
     return Peer
 
 
@@ -285,11 +354,11 @@ def _probe_messages(typ):
     M = simworld.M()
     if typ == 'P':
         return M.PeerPlaceInQueueReply.Request('c11-out', 7), M.PeerPlaceInQueueReply.Request('c11-in', 9), \
-            M.PeerPlaceInQueueReply.Request('c11-keepalive', 1)
+            M.PeerPlaceInQueueReply.Request('c11-keepalive', 1), M.PeerPlaceInQueueReply.Request('c11-glued', 3)
     if typ == 'D':
         return M.DistributedBranchLevel.Request(7), M.DistributedBranchLevel.Request(9), \
-            M.DistributedBranchLevel.Request(1)
-    return struct.pack('<I', 0x0C110007), struct.pack('<I', 0x0C110009), None
+            M.DistributedBranchLevel.Request(1), M.DistributedBranchLevel.Request(3)
+    return struct.pack('<I', 0x0C110007), struct.pack('<I', 0x0C110009), None, None
 
 
 class _Observer:
@@ -357,7 +426,7 @@ def _client_transport(conn):
 
 async def _check_usable(world, loop, obs, conn, peer, typ, received, t_mark):
     """Probe both directions of ``conn``; returns the scripted peer's link carrying it (or None)."""
-    out_msg, in_msg, _ = _probe_messages(typ)
+    out_msg, in_msg = _probe_messages(typ)[:2]
     try:
         await asyncio.wait_for(conn.send_message(out_msg), 5.0)
     except Exception as exc:  # noqa: BLE001 - any failure makes the connection unusable
@@ -515,8 +584,11 @@ def _run_request(c) -> CaseResult:
                     port=CLEAR_PORT if c['ports'] in ('clear', 'both') else 0,
                     obf_port=OBF_PORT if c['ports'] in ('obf', 'both') else 0,
                     direct=listener_outcome, direct_delay=c['direct']['ms'] / 1000.0,
-                    indirect={'pierce': 'pierce', 'cannot': 'cannot', 'silent': 'silent', 'sendfail': 'silent'}[ik],
+                    indirect={'pierce': 'pierce', 'cannot': 'cannot', 'silent': 'silent', 'sendfail': 'silent',
+                              'both': 'both'}[ik],
                     indirect_delay=c['indirect']['ms'] / 1000.0)
+        peer.cc_delay = c['indirect']['cc_ms'] / 1000.0
+        peer.glue = c['indirect']['glue']
         peer.init_fail = dk == 'initfail'
         peer.pierce_obf = c['indirect']['obf']
         peer.i_hops = c['i_hops']
@@ -534,6 +606,8 @@ def _run_request(c) -> CaseResult:
             tr.write = write
         if ik == 'cannot':
             _delay_deliveries(loop, server_link.sides[0], c['i_hops'])
+        elif ik == 'both':
+            _delay_deliveries(loop, server_link.sides[0], c['cc_hops'])
         _install_connect_hops(PEER_IP, c['d_hops'])
         await asyncio.sleep(0.01)
 
@@ -586,6 +660,10 @@ def _run_request(c) -> CaseResult:
             if len(n_init) != 1 or n_init[0][0] is not True:
                 obs.problems.append(('initialized-event-count', f'{[(r) for r, _ in n_init]}'))
             carrier = await _check_usable(world, loop, obs, returned, peer, typ, received, loop.time())
+            if peer.glued is not None and returned.incoming:
+                # the message that followed the pierce message in the same segment belongs to this connection
+                if not any(cn is returned and m == peer.glued for cn, m in received):
+                    obs.problems.append(('unusable:message-glued-to-pierce-not-delivered', f'{len(received)} events'))
             if carrier is not None:
                 obs.facts['carrier_direct'] = carrier.incoming_to_peer
                 if carrier.incoming_to_peer:
@@ -596,7 +674,7 @@ def _run_request(c) -> CaseResult:
 
         # later scripted events (a late pierce, a late CannotConnect, an attempt that was left running)
         now_ms = (loop.time() - t0) * 1000.0
-        events = sorted({t for t in (model['t_d'], model['t_i']) if t is not None and t + 200.0 > now_ms})
+        events = sorted({t for t in model['events'] if t + 200.0 > now_ms})
         for t in events:
             delay = t0 + (t + 200.0) / 1000.0 - loop.time()
             if delay > 0:
@@ -662,7 +740,7 @@ def _run_request(c) -> CaseResult:
         else:
             res.violate(f'C11/unexpected-outcome:{cell}:{tag}', detail)
     elif tag is not None:
-        t_exp = c['cancel_ms'] if tag == 'cancelled' else model['t_ret']
+        t_exp = c['cancel_ms'] if tag == 'cancelled' else model['t_exp'].get(tag, model['t_ret'])
         if obs.t_done_ms > t_exp + LATE_MS:
             res.violate(f'C11/late-completion:{cell}:{tag}',
                         f'finished at {obs.t_done_ms:.1f} ms, modelled {t_exp:.1f} ms; direct={dk} indirect={ik}')
@@ -685,6 +763,8 @@ def _run_request(c) -> CaseResult:
         ctx = f'{c["mode"]}-request-cancelled'
     elif ik == 'sendfail' and model['s_i'] is not None:
         ctx = 'send-failed'
+    elif ik == 'both' and model['s_i'] is not None and model['ambiguous']:
+        ctx = 'pierce-and-cannot-connect'
     elif race and tag in ('direct', 'indirect'):
         other_end = model['t_i'] if tag == 'direct' else model['t_d']
         ctx = 'race-loser-cancelled' if other_end >= model['t_ret'] - EPS_MS else 'completed'
@@ -722,8 +802,14 @@ def _run_request(c) -> CaseResult:
         res.label('other-attempt-pending-at-finish')
     if tie:
         res.label('outcomes-in-same-instant')
-    if c['d_hops'] or c['i_hops'] or c['c_hops']:
+    if c['d_hops'] or c['i_hops'] or c['c_hops'] or c['cc_hops']:
         res.label('sub-instant-offset')
+    if ik == 'both':
+        diff = c['indirect']['ms'] - c['indirect']['cc_ms']
+        res.label('pierce-vs-cannot-connect:' + ('same-instant' if abs(diff) <= EPS_MS else
+                                                 'pierce-first' if diff < 0 else 'cannot-connect-first'))
+    if c['indirect']['glue'] and ik in ('pierce', 'both') and typ != 'F':
+        res.label('message-glued-to-pierce')
     if c['ev_hops']:
         res.label('yielding-listener')
     res.label('connections-initialised:%d' % obs.facts.get('initialised', 0))
@@ -1009,7 +1095,8 @@ def table():
                 if m['t_i'] is not None:
                     marks |= {m['s_i'] + 1.0, m['t_i']}
                 marks = sorted(t for t in marks if t <= m['t_ret'])
-                points = {(int(m['t_ret']), 0), (int(m['t_ret']), 2), (int(m['t_ret']) + 50, 0)}
+                points = {(int(m['t_ret']), 0), (int(m['t_ret']), 2), (int(m['t_ret']) + 50, 0),
+                          (max(0, int(m['t_ret']) - 1), 0)}
                 for a, b in zip(marks, marks[1:]):
                     points.add((int(a), 0))
                     mid = int((a + b) // 2)
@@ -1035,6 +1122,67 @@ def table():
                 v['c_hops'] = hops
                 v['ev_hops'] = ev
                 out.append(v)
+    # 4b. cancellation 0..3 loop iterations before / after the winner's completion (the winner's result is reported
+    #     k iterations later than the cancellation fires, or the cancellation k iterations later than the result),
+    #     which also covers the iterations in which the race tears the loser down
+    for mode, dname, iname in cells:
+        dkind, d_list = D_CLASSES[dname]
+        ikind, i_list = I_CLASSES[iname]
+        case = _base_case(mode, dkind, d_list[0], ikind, i_list[0], n)
+        n += 1
+        m = _model(_sanitise(case))
+        if not (m['allowed'] & {'direct', 'indirect'}):
+            continue
+        for side in ('d_hops', 'i_hops'):
+            for k in (1, 2, 3):
+                for c_hops in (0, 1, 2, 3):
+                    v = dict(case)
+                    v[side] = k
+                    v['cancel_ms'] = int(m['t_ret'])
+                    v['c_hops'] = c_hops
+                    v['ev_hops'] = (k + c_hops) % 2
+                    out.append(v)
+    # 4c. the peer pierces AND the server relays CannotConnect for the same ticket: clearly ordered either way, and
+    #     in the same instant swept over iteration offsets on either delivery (both orders), with a yielding listener,
+    #     with a first message glued to the pierce message, and with the request cancelled in that instant
+    for mode in ('fallback', 'race'):
+        for dkind, d_ms in (('refuse', 3), ('hang', 1), ('noaddr', 1), ('accept', 1500), ('accept', 40)):
+            if mode == 'fallback' and dkind == 'accept':
+                continue        # the indirect attempt never starts
+            both_ms = 40 if dkind != 'hang' else 10040
+            if dkind == 'accept' and d_ms == 40:
+                both_ms = 40    # direct success, pierce and CannotConnect all in one instant (lookup: 2 + 40)
+            variants = []
+            for i_ms, cc_ms in ((both_ms, both_ms + 60), (both_ms + 60, both_ms)):
+                variants.append({'ms': i_ms, 'cc_ms': cc_ms, 'i_hops': 0, 'cc_hops': 0, 'ev_hops': 0, 'glue': False,
+                                 'cancel_ms': None, 'c_hops': 0})
+            for k in range(0, 9):
+                for side in ('i_hops', 'cc_hops'):
+                    if k == 0 and side == 'cc_hops':
+                        continue
+                    for ev in (0, 1):
+                        for glue in (False, True):
+                            vv = {'ms': both_ms, 'cc_ms': both_ms, 'i_hops': 0, 'cc_hops': 0, 'ev_hops': ev,
+                                  'glue': glue, 'cancel_ms': None, 'c_hops': 0}
+                            vv[side] = k
+                            variants.append(vv)
+            for k in (0, 2):
+                for side in ('i_hops', 'cc_hops'):
+                    for c_hops in (0, 1, 2, 3):
+                        vv = {'ms': both_ms, 'cc_ms': both_ms, 'i_hops': 0, 'cc_hops': 0, 'ev_hops': c_hops % 2,
+                              'glue': False, 'cancel_ms': 'tie', 'c_hops': c_hops}
+                        vv[side] = k
+                        variants.append(vv)
+            for vv in variants:
+                case = _base_case(mode, dkind, d_ms, 'both', vv['ms'], n)
+                n += 1
+                case['addr'] = 'lookup'
+                case['indirect'].update(cc_ms=vv['cc_ms'], glue=vv['glue'])
+                case.update(i_hops=vv['i_hops'], cc_hops=vv['cc_hops'], ev_hops=vv['ev_hops'], c_hops=vv['c_hops'])
+                if vv['cancel_ms'] == 'tie':
+                    mm = _model(_sanitise(case))
+                    case['cancel_ms'] = int(2 + both_ms + (mm['s_i'] or 0))
+                out.append(case)
     # 5. reverse role
     for dkind in REV_DIRECT:
         for d_ms in ([2, 700, 9400] if dkind != 'hang' else [1]):
@@ -1077,15 +1225,18 @@ def request_strategy(draw):
         'typ': draw(st.sampled_from(['P', 'P', 'P', 'D', 'F'])),
         'direct': {'kind': draw(st.sampled_from(['accept', 'accept', 'refuse', 'hang', 'initfail', 'noaddr'])),
                    'ms': draw(_d_ms)},
-        'indirect': {'kind': draw(st.sampled_from(['pierce', 'pierce', 'cannot', 'silent', 'sendfail'])),
-                     'ms': draw(_i_ms), 'obf': draw(st.booleans())},
+        'indirect': {'kind': draw(st.sampled_from(['pierce', 'pierce', 'cannot', 'silent', 'sendfail', 'both'])),
+                     'ms': draw(_i_ms), 'obf': draw(st.booleans()), 'cc_ms': draw(_i_ms),
+                     'glue': draw(st.sampled_from([False, False, True]))},
         'ports': draw(st.sampled_from(PORTS)),
         'prefer_obf': draw(st.booleans()),
         'addr': draw(st.sampled_from(['lookup', 'lookup', 'given'])),
-        'd_hops': draw(_hops), 'i_hops': draw(_hops), 'c_hops': draw(_hops),
+        'd_hops': draw(_hops), 'i_hops': draw(_hops), 'c_hops': draw(_hops), 'cc_hops': draw(_hops),
         'ev_hops': draw(st.sampled_from([0, 0, 1, 2])),
         'cancel_ms': None,
     }
+    if case['indirect']['kind'] == 'both' and draw(st.integers(0, 2)) > 0:
+        case['indirect']['cc_ms'] = max(1, case['indirect']['ms'] + draw(st.sampled_from([-20, -1, 0, 0, 0, 1, 20])))
     if case['mode'] == 'race' and draw(st.integers(0, 3)) == 0:
         case = _aligned(case) or case
     if draw(st.integers(0, 2)) > 0:
@@ -1166,6 +1317,11 @@ KNOWN_REPLAYS = {
     _R + 'unowned-connection:outgoing:race-request-cancelled': _req('race', 'accept', 400, 'silent', 1, 100),
     _R + 'unowned-connection:incoming:race-request-cancelled': _req('race', 'refuse', 3, 'pierce', 600, 100),
     _R + 'orphaned-attempt-task:race-request-cancelled': _req('race', 'refuse', 3, 'cannot', 60, 30),
+    # pierce and CannotConnect for the same ticket complete in the same wake-up: done.pop() picked the CannotConnect
+    # (set order), PeerConnectionError was raised and the pierced connection stayed registered (scratch/fixes/C11-4)
+    _R + 'unowned-connection:incoming:pierce-and-cannot-connect': dict(
+        _req('fallback', 'refuse', 3, 'both', 40), indirect={'kind': 'both', 'ms': 40, 'cc_ms': 40, 'obf': False,
+                                                            'glue': False}),
     # race: the request is cancelled in the instant in which an attempt has completed but before it returned
     _R + 'unowned-connection:outgoing:race-request-cancelled:announced-before-cancel':
         _req('race', 'accept', 3, 'silent', 1, 5, c_hops=3),
